@@ -219,11 +219,17 @@ Fixpoint read_col_v2 (null : bool) (max_defi : N) (a : arr) (idx : nat) (pages :
   match pages with
   | [] => AOk a
   | (p, num_rows) :: t =>
-    let sl := firstn num_rows (skipn idx a) in
-    match assemble_page null max_defi sl 0 p with
-    | AOk (sl', _) =>
-      read_col_v2 null max_defi (firstn idx a ++ sl' ++ skipn (idx + num_rows) a) (idx + num_rows) t
-    | AErr x => AErr x
+    match fst p with
+    | [] => read_col_v2 null max_defi a (idx + num_rows) t       (* _v2_page_starts_row: an empty page is skipped *)
+    | (r, _) :: _ =>
+      if r =? 0 then
+        let sl := firstn num_rows (skipn idx a) in
+        match assemble_page null max_defi sl 0 p with
+        | AOk (sl', _) =>
+          read_col_v2 null max_defi (firstn idx a ++ sl' ++ skipn (idx + num_rows) a) (idx + num_rows) t
+        | AErr x => AErr x
+        end
+      else AErr BadSlice                                          (* ValueError: does not start at a row boundary *)
     end
   end.
 
